@@ -230,7 +230,8 @@ fn run(args: &[String]) -> i32 {
                 if let Some(st) = stall {
                     let kind = st.get("kind").and_then(|x| x.as_str()).unwrap_or("?").to_string();
                     let sig = st.get("sig").and_then(|x| x.as_str()).unwrap_or("?").to_string();
-                    if kind == "stall-inconclusive" {
+                    if kind == "stall-inconclusive" || sig.is_empty() || sig == "?" {
+                        // (a stall outside any monitored call - e.g. while the harness itself computes - is not a verdict)
                         total.inconclusive(&format!("shard {} stalled without a verdict in case {}", i, sig));
                         total.exhaustive = false;
                     } else {
